@@ -258,7 +258,7 @@ def histories(ctx, tmp, cfgname, req, impl):
         return np.array([rng.randint(-5, 5) for _ in range(rng.randint(0, 5))], dtype=rng.choice(["int64", "float32", "uint8"]).replace("uint8", "int16"))
 
     src_used_filters = set()
-    n_hist = (16 if cfgname == "file" else (8 if cfgname == "chained2" else 6)) if ctx.quick() else 200
+    n_hist = (16 if cfgname == "file" else (8 if cfgname == "chained2" else 6)) if ctx.quick() else 120
     det = 0
     pathno, contentno = {}, {}
     mirrored = cfgname == "file"
